@@ -45,7 +45,7 @@ def bounds(tier):
         "d": [2] if tier == "quick" else [2, 3],
         "depth": 2 if tier == "quick" else 3,
         "operations": ["construct(pi)", "copy", "jit-id", "vmap-id", "flatten/unflatten", "from_vector(template pi)", "append-rebuild(pi)", "concat-halves", "expand-combine"],
-        "operators": ["+", "-", "*s", "/s", "==", "!="],
+        "operators": ["+", "-", "*s", "/s", "==", "!=", "the same under jax.jit", "integer-typed blocks", "operands unchanged afterwards"],
     }
 
 
@@ -203,10 +203,40 @@ def run_case(case, seed):
             if bool(a != b) is not True:
                 bad("C12/ne", "a != b is not True for different contents")
             counters["evals"] += 2
+        # operators must not modify their operands (aliasing / in-place updates): a is still what the history built
+        if canon(a, ka[1]) != ka:
+            bad("C12/operand-mutated", f"an operator changed its left operand (storage order {ka[0]}, history {ka[1]})")
         for ka2, a2 in SA.items():
             if bool(a == a2) is not True:
                 bad("C12/eq/order-dependent", f"a == a' is False for equal contents stored as {ka[0]} / {ka2[0]} (histories {ka[1]} / {ka2[1]})")
             counters["evals"] += 1
+    for kb, b in SB.items():
+        if canon(b, kb[1]) != kb:
+            bad("C12/operand-mutated", f"an operator changed its right operand (storage order {kb[0]}, history {kb[1]})")
+    # the same operators traced by jax.jit, and on integer-typed blocks (values must agree; dtypes may promote)
+    firsts_a = {}
+    for ka, a in SA.items():
+        firsts_a.setdefault(ka[0], a)
+    firsts_b = {}
+    for kb, b in SB.items():
+        firsts_b.setdefault(kb[0], b)
+    jadd = jax.jit(lambda x, y: (x + y, x - y, x * 3.0))
+    for oa, a in firsts_a.items():
+        for ob, b in firsts_b.items():
+            s_, d_, m_ = jadd(a, b)
+            counters["evals"] += 3
+            for kp in A:
+                if not np.array_equal(np.asarray(s_[kp]), A[kp] + B[kp]) or not np.array_equal(np.asarray(d_[kp]), A[kp] - B[kp]) or not np.array_equal(np.asarray(m_[kp]), A[kp] * 3):
+                    bad("C12/jit/pairing", f"under jax.jit: (a+b, a-b, a*3)[{kp}] wrong for storage orders {oa} / {ob}")
+                    break
+            ai = geom.MultiImage({kp: jnp.asarray(A[kp].astype(np.int32)) for kp in oa}, D, flags)
+            bi = geom.MultiImage({kp: jnp.asarray(B[kp].astype(np.int32)) for kp in ob}, D, flags)
+            si, di, mi_ = ai + bi, ai - bi, ai * 2
+            counters["evals"] += 3
+            for kp in A:
+                if not np.array_equal(np.asarray(si[kp]).astype(np.float64), (A[kp] + B[kp]).astype(np.float64)) or not np.array_equal(np.asarray(di[kp]).astype(np.float64), (A[kp] - B[kp]).astype(np.float64)) or not np.array_equal(np.asarray(mi_[kp]).astype(np.float64), (A[kp] * 2).astype(np.float64)):
+                    bad("C12/int-blocks/pairing", f"integer-typed blocks: (a+b, a-b, a*2)[{kp}] wrong for storage orders {oa} / {ob}")
+                    break
     # operands holding different type sets are rejected / unequal
     some_a = next(iter(SA.values()))
     for drop in keys:
